@@ -491,26 +491,47 @@ example : resolveLinks
 
 /-! ## name tree order -/
 
-/-- `sorted(pdf_names)`: a permutation of the entries, strictly increasing by name (code-point
-order) provided the names are distinct — which `anchors_once` guarantees. -/
-theorem names_sorted (l : List (List Nat × Nat)) (hnd : (l.map (·.1)).Nodup) :
-    (sortNames l).Perm l ∧ StrictSorted (sortNames l) :=
-  ⟨sortNames_perm l, sortNames_sorted l hnd⟩
+/-- `sorted(pdf_names, key=key_bytes)` (repair 09da5a8): the `/Dests` array is a permutation of the
+named destinations and is strictly increasing in the byte order of its keys **as a PDF reader compares
+them** (ISO 32000-1 7.9.6) — ASCII names as their bytes, other names as BOM + UTF-16BE — provided the
+names are distinct, which `anchors_once` guarantees.  Full strength: before the repair this held for
+ASCII names only (`names_byte_sorted_partial`, finding `dests-not-byte-sorted`). -/
+theorem names_byte_sorted (l : List (List Nat × Nat)) (hnd : (l.map (·.1)).Nodup)
+    (hscalar : ∀ e ∈ l, ∀ c ∈ e.1, Scalar c) :
+    (sortNames l).Perm l ∧ StrictSorted ((sortNames l).map withKey) :=
+  ⟨sortNames_perm l, sortNames_sorted l (keys_nodup l hnd hscalar)⟩
 
-/-- For ASCII names (then the key bytes are the code points) the `/Dests` array is sorted by the byte
-order a PDF reader uses (ISO 32000-1 7.9.6).  The statement without the ASCII hypothesis is false of
-the code: see `Witness.C18.dests_not_byte_sorted`. -/
-theorem names_byte_sorted_partial (l : List (List Nat × Nat)) (hnd : (l.map (·.1)).Nodup)
-    (hascii : ∀ e ∈ l, ∀ c ∈ e.1, c < 128) :
-    StrictSorted ((sortNames l).map (fun e => (keyBytes e.1, e.2))) := by
-  apply StrictSorted_congr _ _ _ (sortNames_sorted l hnd)
-  intro e he
-  exact keyBytes_ascii e.1 (hascii e ((sortNames_perm l).mem_iff.mp he))
+/-- A binary search of the written array finds every name: the key of an entry at a smaller index is
+strictly smaller (pairwise form of `names_byte_sorted`). -/
+theorem names_byte_sorted_pairwise (l : List (List Nat × Nat)) (hnd : (l.map (·.1)).Nodup)
+    (hscalar : ∀ e ∈ l, ∀ c ∈ e.1, Scalar c) :
+    ((sortNames l).map withKey).Pairwise (fun a b => nameLt a.1 b.1 = true) := by
+  have h := (names_byte_sorted l hnd hscalar).2
+  generalize (sortNames l).map withKey = m at h
+  induction m with
+  | nil => exact List.Pairwise.nil
+  | cons x xs ih =>
+    refine List.Pairwise.cons ?_ (ih h.tail)
+    clear ih
+    induction xs generalizing x with
+    | nil => intro b hb; simp at hb
+    | cons y ys ih2 =>
+      intro b hb
+      rcases List.mem_cons.mp hb with rfl | hb
+      · exact h.1
+      · have hy := ih2 y h.2 b hb
+        exact nameLt_trans _ _ _ h.1 hy
 
-example : ([([98], 0), ([97, 98], 1), ([97], 2)].map (·.1)).Nodup ∧
-    (∀ e ∈ [([98], 0), ([97, 98], 1), ([97], 2)], ∀ c ∈ e.1, c < 128) := by decide
+example : ([([122], 0), ([97, 233], 1), ([97], 2)].map (·.1)).Nodup ∧
+    (∀ e ∈ [([122], 0), ([97, 233], 1), ([97], 2)], ∀ c ∈ e.1, Scalar c) := by
+  refine ⟨by decide, ?_⟩
+  intro e he c hc
+  simp only [List.mem_cons, List.not_mem_nil, or_false] at he
+  rcases he with rfl | rfl | rfl <;> simp only [List.mem_cons, List.not_mem_nil, or_false] at hc <;>
+    (try rcases hc with rfl | rfl) <;> (try subst hc) <;> (unfold Scalar; omega)
 
-example : sortNames [([98], 0), ([97, 98], 1), ([97], 2)] = [([97], 2), ([97, 98], 1), ([98], 0)] := by decide
+/-- `a` < `z` < `aé`: the non-ASCII name is written `<FEFF006100E9>` and goes last. -/
+example : sortNames [([122], 0), ([97, 233], 1), ([97], 2)] = [([97], 2), ([122], 0), ([97, 233], 1)] := by decide
 
 /-! ## link_rect -/
 
